@@ -11,7 +11,7 @@ Expected(ev) == MapForm(G, Cfg.impl0.alts, Cfg.impl0.dist, ev.genes, StartForm(G
 
 Clause(ev) == IF ev.e # "gemap" \/ ev.exc # "" \/ ~Defined THEN "ok"
               ELSE IF Expected(ev) # ev.prog THEN "C07:mapping-function" ELSE "ok"
-Attrs(ev) == <<"ge", "grow">>
+Attrs(ev) == <<ev.rep, "grow">>
 
 TInit   == tid \in 1..NTraces /\ InitWith(0)
 TNext   == Step(Clause(Ev), Attrs(Ev), st)
